@@ -22,8 +22,10 @@ import (
 	"encoding/hex"
 	"errors"
 	"io"
+	"maps"
 	"net/http"
 	"net/url"
+	"slices"
 	"strings"
 	"time"
 
@@ -369,9 +371,13 @@ func (h *genericContextualizer) calculateCacheKey(
 	hash.Write(ttlBytes)
 	hash.Write(sub.Hash())
 
-	for k, v := range values {
+	// the values are hashed in a defined order (map iteration order is random, which would result in
+	// different cache keys for identical requests) and separated from each other
+	for _, k := range slices.Sorted(maps.Keys(values)) {
 		hash.Write(stringx.ToBytes(k))
-		hash.Write(stringx.ToBytes(v))
+		hash.Write([]byte{0})
+		hash.Write(stringx.ToBytes(values[k]))
+		hash.Write([]byte{0})
 	}
 
 	return hex.EncodeToString(hash.Sum(nil))
